@@ -110,6 +110,8 @@ package signal
 //@   hint bi_lt_inv(b.channels, start, end)
 //@   hint bi_lt_inv(b.channels, end, fdiv(cap(b.data), b.channels))
 //@   hint bi_lt_inv(b.channels, 0, start)
+//@   hint bi_zero(b.channels)
+//@   hint fdiv_def(cap(b.data), b.channels)
 //@   panics-iff[bounds: C02] start < 0 || start > end || end > ite(b.channels == 0, 0, fdiv(cap(b.data), b.channels))
 //@   ensures[fresh-header] fresh(result)
 //@   ensures[shape] result.channels == b.channels && result.bitDepth == b.bitDepth
@@ -180,3 +182,40 @@ package signal
 //@   ensures sameExcept(c.Buffer, bi(c.Buffer.channels, c.channel, index), bi(c.Buffer.channels, c.channel, index) + 1)
 //@   ensures hdrSame(c.Buffer) && allocs == old(allocs)
 //@   modifies H(c.Buffer)
+
+// ---------------------------------------------------------------------------
+// interleaved read / write
+// ---------------------------------------------------------------------------
+
+
+//@ func Write[S,D](src, dst)
+//@   props C01 C18 C19 C20
+//@   requires wf(dst) && disjoint(src, dst)
+//@   let n = min(len(dst.data), len(src))
+//@   ensures[values: C01] forall(k, 0, n, at(dst, k) == K(old(src[k])))
+//@   ensures[plain-conversion: C01] forallS(x, S, K(x) == conv(S, D, x))
+//@   ensures[frame: C01 C19 C20] sameExcept(dst, 0, n) && hdrSame(dst)
+//@   ensures[count: C01 C20] result == ite(dst.channels == 0, 0, cdiv(n, dst.channels))
+//@   ensures[no-alloc: C18] allocs == old(allocs)
+//@   modifies H(dst)
+//@   loop 1 kernel
+//@     invariant 0 <= $i && $i <= n
+//@     invariant forall(k, 0, $i, at(dst, k) == K(old(src[k])))
+//@     invariant sameExcept(dst, 0, $i)
+//@     decreases n - $i
+
+//@ func Read[S,D](src, dst)
+//@   props C01 C18 C19 C20
+//@   requires wf(src) && disjoint(src, dst)
+//@   let n = min(len(src.data), len(dst))
+//@   ensures[values: C01] forall(k, 0, n, dst[k] == K(old(at(src, k))))
+//@   ensures[plain-conversion: C01] forallS(x, S, K(x) == conv(S, D, x))
+//@   ensures[frame: C01 C19 C20] sameExcept(dst, 0, n) && hdrSame(src)
+//@   ensures[count: C01 C20] result == ite(src.channels == 0, 0, cdiv(n, src.channels))
+//@   ensures[no-alloc: C18] allocs == old(allocs)
+//@   modifies H(dst)
+//@   loop 1 kernel
+//@     invariant 0 <= $i && $i <= n
+//@     invariant forall(k, 0, $i, dst[k] == K(old(at(src, k))))
+//@     invariant sameExcept(dst, 0, $i)
+//@     decreases n - $i
